@@ -89,7 +89,7 @@ var blockRe = regexp.MustCompile(`(?s)/\*@(.*?)@\*/`)
 var clauseKeywords = map[string]bool{
 	"serves": true, "requires": true, "ensures": true, "modifies": true, "decreases": true,
 	"loop": true, "flag": true, "pure": true, "trusted": true, "inline": true, "opaque": true,
-	"nopanic": true, "maypanic": true, "assume-safety": true, "dyncalls-pure": true, "functional": true, "unroll": true, "abstract": true, "allocates": true, "replaytext": true, "wrap": true, "overflow": true, "norac": true, "stages": true,
+	"nopanic": true, "maypanic": true, "assume-safety": true, "assume-casts": true, "dyncalls-pure": true, "functional": true, "unroll": true, "abstract": true, "allocates": true, "replaytext": true, "wrap": true, "overflow": true, "norac": true, "stages": true,
 	"split": true, "assume-unreachable": true, "ghostset": true, "assumes": true, "assumepre": true, "lemma": true, "assert": true, "assume": true, "ghostat": true, "splitcond": true, "dyncall-preserves": true, "assumed-ensures": true, "except": true, "loopinvariant": true, "loopdecreases": true, "notemplate": true,
 }
 
@@ -586,6 +586,8 @@ func specToGo(s string, resultName string) string {
 					sb.WriteString("__cancelled")
 				case w == "iterstart" && next == '(':
 					sb.WriteString("__iterstart")
+				case w == "atcall" && next == '(':
+					sb.WriteString("__atcall")
 				case w == "samemap" && next == '(':
 					sb.WriteString("__samemap")
 				case w == "samecontent" && next == '(':
@@ -710,4 +712,17 @@ type NamedLoop struct {
 	Frag string
 	LC   *LoopContract
 	done bool
+}
+
+// mentionsAtCall: some assertion of the contract uses atcall(e).
+func (c *Contract) mentionsAtCall() bool {
+	if c == nil {
+		return false
+	}
+	for _, a := range c.Asserts {
+		if strings.Contains(a.Text, "atcall(") {
+			return true
+		}
+	}
+	return false
 }
